@@ -118,3 +118,22 @@ Theorem C09_group_by_chain : forall crs c,
   alookup c (group_by_chain crs) = match of_chain c (concat crs) with [] => None | l => Some l end.
 Proof. exact group_by_chain_spec. Qed.
 Print Assumptions C09_group_by_chain.
+
+(* C09_never_reexecuted across one execute cycle (composition with the C08 report builder): the executed list a
+   pending report carries is the one recorded by the filter in the GetCommitReports round (pending reports travel
+   unchanged through the GetMessages outcome), and report.checkMessage treats a message as eligible only if its
+   sequence number is not in that list (C08_add: every included index is eligible). Hence a message the destination
+   reported as executed when the cycle started is in no chain report of that cycle. *)
+Require Verif.Model.ExecReport Verif.Proofs.ExecReportP Verif.Proofs.ExecHistoryP.
+Theorem C09_never_reexecuted_cycle : forall reports executed out r' (cd : ExecReport.cdata),
+  layout (by_start reports) ->
+  (forall r, In r reports -> p_exec r = [] /\ p_hi r < max64) ->
+  Forall (fun e => fst e <= snd e /\ snd e < max64) executed ->
+  no_overlap 0 (ranges_by_start executed) = true ->
+  filter_executed reports executed = Ok out ->
+  In r' out ->
+  (forall s, in_runs (p_exec r') s -> memN s (ExecReport.c_exec cd) = true) ->
+  forall i m, ExecReportP.eligible cd i -> nth_error (ExecReport.c_msgs cd) i = Some m ->
+    p_lo r' <= ExecReport.m_seq m <= p_hi r' -> ~ in_union executed (ExecReport.m_seq m).
+Proof. exact ExecHistoryP.executed_never_included. Qed.
+Print Assumptions C09_never_reexecuted_cycle.
